@@ -486,9 +486,31 @@ func (hs *hist) cycles(r *rand.Rand, cfg histCfg, m *model, lv *live) {
 		}
 		return op
 	}
+	// WALs written before OnStart was repaired have an EndHeight{0} at the top
+	// of every head that was found empty at a start, also behind rotated files.
+	// The API writes any height; such a marker is written here now and then,
+	// but only once the chain has left the initial height (a durable marker
+	// > 0 exists), where marker 0 is no longer what a replay searches.
+	legacyZero := func() error {
+		if initialOnly || len(m.Files) < 2 || m.head().Logical != 0 || r.Intn(3) != 0 {
+			return nil
+		}
+		for _, x := range m.J {
+			if x.End && x.H > 0 && x.Acked && m.onDisk(x) {
+				c.Count("legacy_marker_0_written_at_the_top_of_a_head", 1)
+				return lv.do(opSpec{Kind: opEndZeroSync})
+			}
+		}
+		return nil
+	}
 	for cyc := 0; cyc < cfg.Cycles; cyc++ {
 		nops := 3 + r.Intn(28)
 		for i := 0; i < nops; i++ {
+			if err := legacyZero(); err != nil {
+				lv.stop()
+				hs.fail(err)
+				return
+			}
 			if err := lv.do(gen()); err != nil {
 				lv.stop()
 				hs.fail(err)
